@@ -346,6 +346,19 @@ class TDGeneric(TypedDict, Generic[T]):
     payload: T
 class TDSelfRef(TypedDict):
     children: list["TDSelfRef"]
+class TDGenericRec(TypedDict, Generic[T]):   # implicit alias referenced (with arguments) before the class itself is fixed up
+    val: T
+    children: list["TDGenericRec[T]"]
+class NTGenericRec(NamedTuple, Generic[T]):
+    val: T
+    nxt: Optional["NTGenericRec[T]"]
+class AHolderOfGenericNT(TypedDict):          # sorts before NTGeneric: resolves NTGeneric's implicit alias first
+    held: NTGeneric[int]
+    rec: NTGenericRec[str]
+class ZHolderOfGenericTD(NamedTuple):         # sorts after TDGeneric
+    held: TDGeneric[int]
+    rec: TDGenericRec[bytes]
+def use_generic_special(a: NTGeneric[str], b: TDGeneric[str], c: NTGenericRec[int], d: TDGenericRec[int]) -> None: ...
 
 class Shade(enum.Enum):
     LIGHT = 1
